@@ -49,6 +49,7 @@ pub fn check_log_upto(h: &Hist, info: &SchedInfo, upto: usize) -> Result<(bool, 
     let mut reboot_od_requests = 0usize;
     let mut pending_request = false; // a control request was issued and not yet replied
     let mut open_requests: Vec<usize> = vec![];
+    let mut open_od: Vec<usize> = vec![]; // the on-demand ones among them
     let mut i = 0;
     while i < log.len() {
         let around = Some((i.saturating_sub(10), (i + 4).min(log.len())));
@@ -129,12 +130,16 @@ pub fn check_log_upto(h: &Hist, info: &SchedInfo, upto: usize) -> Result<(bool, 
             Op::ControlIssue { req, on_demand, .. } => {
                 open_requests.push(*req);
                 pending_request = true;
+                if *on_demand {
+                    open_od.push(*req);
+                }
                 if *on_demand && ph[i] == Phase::RebootWait {
                     reboot_od_requests += 1;
                 }
             }
             Op::ControlReply { req, .. } => {
                 open_requests.retain(|r| r != req);
+                open_od.retain(|r| r != req);
                 pending_request = !open_requests.is_empty();
             }
             Op::CheckAllowed { on_demand, .. } => {
@@ -165,7 +170,9 @@ pub fn check_log_upto(h: &Hist, info: &SchedInfo, upto: usize) -> Result<(bool, 
                 reboot_timers.clear();
                 reboot_fired = 0;
                 reboot_asked = 0;
-                reboot_od_requests = 0;
+                // on-demand requests made while the check was finishing (a slow observer) and still unanswered are
+                // answered in the reboot wait: each of them re-asks the question, too
+                reboot_od_requests = open_od.len();
                 classes.push("reboot_wait");
             }
             Op::RebootAllowed { .. } => {
